@@ -176,6 +176,17 @@ func (ex *Exec) doStore(st *State, fr *Frame, x *ssa.Store) {
 		ex.checkAssigns(st, fr, a, x.Pos())
 	}
 	ex.store(st, a, v)
+	// program-point assertions of the verified function's contract
+	if top := ex.topFrame; top != nil && top.ct != nil && fr == top && len(top.ct.StoreAsserts) > 0 && a.Kind == AHeap && len(a.Path) == 1 && !a.Path[0].IsIdx {
+		if stt, ok := a.Root.Underlying().(*types.Struct); ok {
+			for _, cl := range top.ct.StoreAsserts[stt.Field(a.Path[0].Field).Name()] {
+				o := ex.oblige(st, fr, "assert-after-store("+stt.Field(a.Path[0].Field).Name()+")", x.Pos(), cl.Text, ex.evalBool(top, st, top.entry, nil, cl.Expr))
+				if o != nil && len(cl.Props) > 0 {
+					o.Props = cl.Props
+				}
+			}
+		}
+	}
 }
 
 // markEscaped records fresh refs that become reachable from shared memory.
